@@ -418,15 +418,20 @@ MUTANTS = ('RefuteSize', 'RefuteFirst', 'RefuteWindowTwin', 'RefuteLatched')
 
 
 def check_history_design(ctx):
-    """KTableHistory: the invariants hold without a memo and with a memo keyed on the requested points / on
-    their end points; every under-keyed memo and the latched opacity mode are refuted by the window alphabet."""
-    ctx.check_spec('history-design', 'MC_KTableHistory', 'MC_KTableHistory_hold.cfg', workers=4,
-                   need_actions=('SetWin', 'SetTP', 'SetMode', 'Eval'))
-    res = run_tlc('MC_KTableHistory', 'MC_KTableHistory_mutants.cfg', workers=4, allow_violation=True, extra=['-continue'])
-    ctx.add_tlc('history-design-mutants', res, counts=False)
+    """KTableHistory, one TLC run (-continue): the invariants hold without a memo and with a memo keyed on the
+    requested points / on their end points; every under-keyed memo and the latched opacity mode are refuted by
+    the window alphabet (exactly the four Refute* invariants must be violated)."""
+    res = run_tlc('MC_KTableHistory', 'MC_KTableHistory_all.cfg', workers=4, coverage=True, allow_violation=True,
+                  extra=['-continue'])
+    ctx.add_tlc('history-design', res)
     got = set(re.findall(r'Invariant (\S+) is violated', res.out))
     if set(MUTANTS) - got or got - set(MUTANTS):
-        raise Machinery('KTableHistory mutants: expected TLC to refute exactly %r, got %r' % (sorted(MUTANTS), sorted(got)))
+        raise Machinery('KTableHistory: expected TLC to refute exactly %r, got %r' % (sorted(MUTANTS), sorted(got)))
+    for a in ('SetWin', 'SetTP', 'SetMode', 'Eval'):
+        if res.action_cov.get(a, (0, 0))[1] == 0:
+            raise Machinery('vacuous: action %s of KTableHistory never taken' % a)
+    if res.distinct == 0:
+        raise Machinery('TLC reported 0 states for MC_KTableHistory')
 
 
 def run_histories(ctx, nwalks, thorough):
